@@ -18,9 +18,11 @@ def PartialRec (n : Nat) (g : ResGroup) : Prop :=
   | .absent => ∃ lp, g.lastPixel = some lp ∧ lp < (n : Int)
   | .notDataset => False
 
-/-- this group was made for exactly this (dataset, tool) with matching parameters -/
+/-- this group was made for exactly this (dataset, tool) with matching parameters - and, as far as the file
+    records it, for this very dataset rather than another one of the same name -/
 def Matches (g : ResGroup) (dset tool : Str) (parms : Dict) : Prop :=
-  g.isGroup = true ∧ (∃ k, indexOf (resultsPrefix dset tool) g.name = some k) ∧ matchAll g.attrs parms = true
+  g.isGroup = true ∧ g.otherSource = false ∧ (∃ k, indexOf (resultsPrefix dset tool) g.name = some k) ∧
+    matchAll g.attrs parms = true
 
 theorem filter_full {α : Type} (p : α → Bool) : ∀ (l : List α), l.length ≤ (l.filter p).length → ∀ a ∈ l, p a = true
   | [], _, a, ha => by simp at ha
@@ -92,8 +94,8 @@ theorem mem_matching (gs : List ResGroup) (d t : Str) (parms : Dict) (g : ResGro
     (h : g ∈ matching gs d t parms) : g ∈ gs ∧ Matches g d t parms := by
   unfold matching at h
   obtain ⟨h1, h2⟩ := List.mem_filter.mp h
-  simp only [Bool.and_eq_true] at h2
-  exact ⟨h1, h2.1.1, Option.isSome_iff_exists.mp h2.1.2, h2.2⟩
+  simp only [Bool.and_eq_true, Bool.not_eq_true'] at h2
+  exact ⟨h1, h2.1.1.1, h2.1.1.2, Option.isSome_iff_exists.mp h2.1.2, h2.2⟩
 
 /-- A group is returned without computing only if it is one of the existing groups, named for exactly this
     dataset and tool (C13.lookup_exact), every requested parameter matches the stored one, and its progress
